@@ -330,3 +330,38 @@ func mutateTar(r *hx.Rand, base []byte) ([]byte, string) {
 	}
 	return b, how
 }
+
+// genLinkTar writes an archive over a tiny name pool so that entries collide:
+// symlinks and hard links to each other, to themselves, to parents and to
+// missing names, directories replaced by files and the reverse.
+func genLinkTar(r *hx.Rand) []byte {
+	pool := []string{"a", "b", "c", "a/b", "a/c", "b/a", "d/e/f", ".", "..", "/a", "a/../b", "./a/", "a//b"}
+	var buf bytes.Buffer
+	tw := tar.NewWriter(&buf)
+	n := 1 + r.Intn(8)
+	for i := 0; i < n; i++ {
+		h := &tar.Header{Name: pool[r.Intn(len(pool))], Mode: 0o644, Format: tar.FormatPAX}
+		var body []byte
+		switch r.Intn(6) {
+		case 0, 1:
+			h.Typeflag = tar.TypeReg
+			body = []byte("x")
+		case 2:
+			h.Typeflag = tar.TypeDir
+			h.Mode = 0o755
+		case 3, 4:
+			h.Typeflag = tar.TypeSymlink
+			h.Linkname = pool[r.Intn(len(pool))]
+		case 5:
+			h.Typeflag = tar.TypeLink
+			h.Linkname = pool[r.Intn(len(pool))]
+		}
+		h.Size = int64(len(body))
+		if err := tw.WriteHeader(h); err != nil {
+			continue
+		}
+		tw.Write(body)
+	}
+	tw.Close()
+	return append([]byte(nil), buf.Bytes()...)
+}
